@@ -15,7 +15,8 @@ RUNS = {"quick": 300, "thorough": 4000}
 BUDGET = {"quick": 95, "thorough": 3000}
 RULE = ("each seeded busy scenario (target context with requests awaiting ACK, awaiting a separate response, mid "
         "block-wise transfer in both directions, active observations on both sides, queued NSTART backlog, pending "
-        "empty-ACK timers, unexpired de-duplication entries; a second context in the same process with its own "
+        "empty-ACK timers, unexpired de-duplication entries, requests over TCP awaiting their response, a TCP client's "
+        "request being handled; a second context in the same process with its own "
         "traffic) is first run without shutdown to collect its event boundaries (every distinct instant at which the "
         "target context sent, received or was called), then re-run once per boundary with Context.shutdown() started "
         "just before the events of that instant (as a task, or with shutdown()'s synchronous part executed in the same loop "
@@ -23,19 +24,20 @@ RULE = ("each seeded busy scenario (target context with requests awaiting ACK, a
         "and drained to quiescence. evaluations counts scenario runs; shutdown_points_enumerated counts the nested runs. "
         "Non-trivial = at least one piece of work was outstanding at the shutdown instant; distinct = distinct hash of "
         "(scenario shape, set of outstanding-work kinds at the shutdown instants).")
-COMPONENTS_REAL = ["aiocoap.protocol.Context.shutdown", "aiocoap.tokenmanager", "aiocoap.messagemanager",
+COMPONENTS_REAL = ["aiocoap.transports.tcp (client and server role)", "aiocoap.protocol.Context.shutdown", "aiocoap.tokenmanager", "aiocoap.messagemanager",
                    "aiocoap.transports.udp6", "aiocoap.util.asyncio.recvmsg", "aiocoap.protocol (Request, BlockwiseRequest, "
                    "ClientObservation)", "aiocoap.resource", "aiocoap.blockwise", "aiocoap.pipe"]
-COMPONENTS_STUB = ["UDP socket (SimSocket)", "scripted peers (reference codec)", "event loop clock (virtual)"]
+COMPONENTS_STUB = ["TCP streams (SimStreamNet)", "UDP socket (SimSocket)", "scripted peers (reference codec)", "event loop clock (virtual)"]
 ASSUMPTIONS = ["the network is fault-free in these scenarios: the fault under study is the shutdown instant",
                "a loop exception counts against the context only if the same scenario without shutdown has none",
                "SHUTDOWN_TIMEOUT is 3 s"]
 EXPECTED_PROBES = ["awaiting_ack", "awaiting_separate_response", "mid_blockwise", "client_observation", "server_observation",
-                   "backlog_queued", "handler_running", "empty_ack_timer_pending", "dedup_entries", "nothing_outstanding"]
+                   "backlog_queued", "handler_running", "empty_ack_timer_pending", "dedup_entries", "nothing_outstanding",
+                   "awaiting_tcp_response"]
 
 OTHER_IP = "fd00::3"
 ACTIVITIES = ["t_req_silent", "t_req_acked", "t_backlog", "t_get_big", "t_put_big", "t_observe", "s_req_slow",
-              "s_observe", "s_req_fast", "o_req", "t_backlog_acked", "s_token_reuse"]
+              "s_observe", "s_req_fast", "o_req", "t_backlog_acked", "s_token_reuse", "t_req_tcp", "s_req_tcp"]
 
 
 def gen(r, tier):
@@ -163,10 +165,46 @@ def run_world(scn, shutdown_at, seed):
             osite = resource.Site()
             osite.add_resource(["big"], Big())
             osite.add_resource(["counter"], ocounter)
-            T = await sim.server(tsite, common.SERVER_IP, loggername="coap-target")
+            # the target context also speaks CoAP over TCP, as a client and as a server
+            await tcp_listener.start()
+            T = await aiocoap.Context.create_server_context(tsite, bind=(common.SERVER_IP, 5683),
+                                                            transports=["udp6", "tcpclient", "tcpserver"],
+                                                            loggername="coap-target")
+            sim.contexts.append(T)
+            for ri in T.request_interfaces:
+                order_tcp_pools(ri)
             O = await sim.server(osite, OTHER_IP, loggername="coap-other")
             return T, O
 
+        from simkit.stream import SimStreamNet, TcpPeer, TcpPeerListener, order_tcp_pools, split_frames
+        sn = SimStreamNet(sim)
+        loop.streamnet = sn
+        TCP_PEER_IP = "fd00::20"
+        CSM = rc.tcp_encode({"code": rc.CSM, "token": b"", "options": [], "payload": b""})
+
+        def tcp_server_peer(n):
+            # scripted CoAP-over-TCP server: CSM at once, then silence for /silent and an answer after 0.6 s for /late
+            answered = set()
+
+            def on_data(p, d):
+                frames, _ = split_frames(p.rx)
+                for (a, b, m, err) in frames:
+                    if m is not None and m["code"] == rc.RELEASE and p.is_open:
+                        # RFC 8323 5.5: the receiver of a Release closes the connection -- after finishing what it has
+                        # in flight (which may arrive at the releasing side after its shutdown() has returned)
+                        loop.after(close_delay, lambda: p.is_open and p.close())
+                    if m is None or not (1 <= m["code"] < 32) or m["token"] in answered:
+                        continue
+                    answered.add(m["token"])
+                    if rc.opt1(m, rc.URI_PATH) == b"late":
+                        loop.after(0.6, lambda m=m: p.is_open and p.send({"code": rc.CONTENT, "token": m["token"], "options": [],
+                                                                          "payload": b"late"}))
+            return TcpPeer(sim, "tcp-peer#%d" % n, on_data=on_data,
+                           on_event=lambda p, k, i: p.write(CSM) if k == "made" else None)
+
+        close_delay = 1.0
+        tcp_listener = TcpPeerListener(sim, TCP_PEER_IP, 5683, tcp_server_peer)
+        tcp_clients = []
         T, O = loop.run_until_complete(setup())
         taddr = (common.SERVER_IP, 5683)
         peer = Peer(sim, common.PEER_IPS[0], 5683)
@@ -196,6 +234,27 @@ def run_world(scn, shutdown_at, seed):
                 # lets the next one out
                 for j in range(3):
                     t_request(tag + ".%d" % j, Message(code=GET, uri="coap://[%s]/acked?%d" % (peer2.addr[0], j)))
+            elif k == "t_req_tcp":
+                t_request(tag + ".silent", Message(code=GET, uri="coap+tcp://[%s]/silent" % TCP_PEER_IP))
+                t_request(tag + ".late", Message(code=GET, uri="coap+tcp://[%s]/late" % TCP_PEER_IP))
+            elif k == "s_req_tcp":
+                # a scripted TCP client connects to the target's TCP server and asks for the slow resource
+                def on_data_c(p, d):
+                    frames, _ = split_frames(p.rx)
+                    if any(m is not None and m["code"] == rc.RELEASE for (_a, _b, m, _e) in frames) and p.is_open:
+                        loop.after(0.05, lambda: p.is_open and p.close())
+                p = TcpPeer(sim, "tcp-client#%d" % n[0], on_data=on_data_c)
+                tcp_clients.append(p)
+
+                async def go(p=p, d=a["d"], tok=bytes([0x7C, n[0]])):
+                    try:
+                        await p.connect(common.SERVER_IP, 5683)
+                    except OSError:
+                        return  # the target's TCP server is closed already
+                    p.write(CSM)
+                    p.send({"code": rc.GET, "token": tok, "options": [(rc.URI_PATH, b"slow"), (rc.URI_QUERY, b"d=%r" % d)],
+                            "payload": b""})
+                loop.create_task(go())
             elif k == "t_get_big":
                 t_request(tag, Message(code=GET, uri="coap://[%s]/big" % OTHER_IP), blockwise=True)
             elif k == "t_put_big":
@@ -278,7 +337,18 @@ def run_world(scn, shutdown_at, seed):
 
         sim.run()
 
-        result = {"events": sim.events, "wire": sim.net.wire, "sd": sd, "ttrack": ttrack, "otrack": otrack, "tobs": tobs,
+        tcp_writes = []  # (t, connection, side) of everything the target wrote on a TCP connection
+        tcp_open = []
+        for conn in sn.conns:
+            # which side is the target? connections it opened (client side "c") go to TCP_PEER_IP; accepted ones come
+            # from the scripted clients
+            side, pipe = ("c", conn.c2s) if conn.saddr[0] == TCP_PEER_IP else ("s", conn.s2c)
+            for (t, off, ln) in pipe.writes:
+                tcp_writes.append((t, conn.name, ln))
+            tr = conn.c if side == "c" else conn.s
+            if tr is not None and not tr.is_closing():
+                tcp_open.append(conn.name)
+        result = {"tcp_writes": tcp_writes, "tcp_open": tcp_open, "events": sim.events, "wire": sim.net.wire, "sd": sd, "ttrack": ttrack, "otrack": otrack, "tobs": tobs,
                   "handlers": handlers, "exceptions": sim.loop_exceptions(), "taddr": taddr, "error": error,
                   "now": loop.now, "digest": sim.digest(), "harness_errors": list(sim.loop.harness_errors)}
         return result
@@ -291,6 +361,8 @@ def boundaries_of(base):
     tstr = fmt(base["taddr"])
     for ev in base["events"]:
         if ev[1] in ("tx", "rx") and tstr in ev[2]:
+            ts.add(ev[0])
+        elif ev[1] == "tcp" and ev[2] in ("write", "chunk", "connect"):
             ts.add(ev[0])
         elif ev[1] == "app":
             ts.add(ev[0])
@@ -370,6 +442,8 @@ def judge(sim, scn, base, base_exc, res, t_sd, after):
     if snap["incoming"] and not snap["handlers"]:
         kinds.add("server_observation")
     for tag in snap["pending"]:
+        if tag.startswith("t_req_tcp"):
+            kinds.add("awaiting_tcp_response")
         if tag.startswith("t_req_acked") and not snap["exchanges"]:
             kinds.add("awaiting_separate_response")
         if tag.startswith("t_get_big") or tag.startswith("t_put_big"):
@@ -392,7 +466,9 @@ def judge(sim, scn, base, base_exc, res, t_sd, after):
     # ---- outstanding client requests terminate with a library error
     for tag in snap["pending"]:
         rec = res["ttrack"].results[tag]
-        if not rec["done"] or rec["t_done"] > t_ret + TOL:
+        # "within the shutdown time-out": a request that was still looking for its remote (name resolution, a TCP
+        # connection being established) learns about the shutdown when that step ends
+        if not rec["done"] or rec["t_done"] > sd["t_start"] + 3.0 + TOL:
             sim.violation("C18/request-not-terminated-by-shutdown", dict(ident, request=tag.split("#")[0], done=rec["done"]))
         elif rec["outcome"] == "error" and not isinstance(rec["exception"], error.Error):
             sim.violation("C18/request-failed-with-non-library-error", dict(ident, request=tag.split("#")[0],
@@ -419,6 +495,11 @@ def judge(sim, scn, base, base_exc, res, t_sd, after):
     if late:
         sim.violation("C18/transmission-after-shutdown", dict(ident, n=len(late), first=rc.summary(late[0]["msg"]) if late[0]["msg"] else None,
                                                             t=late[0]["t"]))
+    late_tcp = [w for w in res["tcp_writes"] if w[0] > t_ret + TOL]
+    if late_tcp:
+        sim.violation("C18/tcp-write-after-shutdown", dict(ident, n=len(late_tcp), t=late_tcp[0][0], connection=late_tcp[0][1]))
+    if res["tcp_open"]:
+        sim.violation("C18/tcp-connection-left-open", dict(ident, connections=res["tcp_open"][:3]))
     # ---- no timer or callback raises
     if not base_exc:
         new_exc = res["exceptions"][snap["exc_n"]:]
